@@ -247,6 +247,19 @@ NOT_APPLICABLE = {
 }
 
 
+def _rules_run(pid):
+    """the rule ids the check evaluated in its last run (from its evidence file; what each states is in coverage.rules)."""
+    try:
+        with open(os.path.join(VERIF, 'evidence', pid + '.json'), encoding='utf-8') as f:
+            rules = sorted(json.load(f)['coverage'].get('rules', {}))
+    except (OSError, ValueError, KeyError):
+        return ''
+    if not rules:
+        return ''
+    return (' Every rule listed here is a necessary condition of the property and is decided on the normalised AST / CFG '
+            '(own rules and the shared bundles of sa/crosslist.py; DESIGN 12.2c): ' + ', '.join(rules) + '.')
+
+
 def build():
     checks = []
     for pid in sorted(CHECKS):
@@ -261,7 +274,8 @@ def build():
             'evidence_file': '/verif/evidence/%s.json' % pid,
             'replay_cmd_template': '%s -m checks.%s --replay {path}' % (PY, pid.lower()),
             'engine': 'sa',
-            'level_claimed': {'category': c['level'], 'text': c['text'] + ADDENDA.get(pid, ''), 'design_ref': c['design']},
+            'level_claimed': {'category': c['level'], 'text': c['text'] + ADDENDA.get(pid, '') + _rules_run(pid),
+                              'design_ref': c['design']},
             'level_note': c['note'],
             'technique': 'static analysis: ' + c['technique'],
         })
